@@ -186,7 +186,11 @@ def run_pipeline(ctx, mod, demod, cfg, idx):
     dargs = ["-l"] + (["-i"] if invert else [])
     q = lambda a: " ".join("'" + x.replace("'", "'\\''") + "'" for x in a)
     if lead:
-        (d / "lead.raw").write_bytes(struct.pack("<48000h", *[r.range(-300, 300) for _ in range(48000)]))
+        # about one second of leading noise; the length is deliberately NOT a round number of blocks/frames (any residue
+        # modulo 480 / 1920), so that the transmission ends at an arbitrary offset of the receiver's input stream
+        nlead = 48000 + r.range(-4000, 4000) if r.chance(3, 4) else 48000
+        nlead += r.choice([0, 1, 239, 431, 479, 481, 1919])
+        (d / "lead.raw").write_bytes(struct.pack(f"<{nlead}h", *[r.range(-300, 300) for _ in range(nlead)]))
         producer = f"( cat lead.raw; {mod} {q(margs)} < audio.raw 2> mod.err; echo $? > mod.rc )"
     else:
         producer = f"( {mod} {q(margs)} < audio.raw 2> mod.err; echo $? > mod.rc )"
@@ -203,7 +207,7 @@ def run_pipeline(ctx, mod, demod, cfg, idx):
             return ""
     res = {"mod_rc": rd("mod.rc"), "demod_rc": rd("demod.rc"), "stderr": (d / "demod.err").read_bytes() if (d / "demod.err").exists() else b"",
            "out_len": (d / "out.raw").stat().st_size if (d / "out.raw").exists() else -1, "mod_err": rd("mod.err")[-300:],
-           "nsamples": nsamples, "wall": time.time() - t0, "cmd": f"{Path(str(mod)).name} {q(margs)} < audio({kind},{seconds}s) | {'(1 s noise first) ' if lead else ''}{Path(str(demod)).name} {q(dargs)}",
+           "nsamples": nsamples, "wall": time.time() - t0, "cmd": f"{Path(str(mod)).name} {q(margs)} < audio({kind},{seconds}s) | {'(about 1 s noise first) ' if lead else ''}{Path(str(demod)).name} {q(dargs)}",
            "dir": str(d)}
     for n in ("audio.raw", "lead.raw", "out.raw"):
         try:
